@@ -331,9 +331,9 @@ def wrapper_one(dt, capcase, prop="C15"):
              arr((kf + 1, kf), lambda r, j: one(rec["Hf"], z3.IntVal(0), r, j), wdtype), goals)
         labels = sorted(a_.__name__ for a_ in getattr(Q, "annotations", set()))
         if labels and prop == "C05":
-            goals.append(("reported labels on Q: only Stiefel, and every returned column is one of the columns 0..k-1 of the final state, which the loop invariant "
-                          "(orthonormality obligations) makes orthonormal -- column k is a unit vector only if the last normalisation was not clipped (no breakdown, k < n)",
-                          z3.And(z3.BoolVal(set(labels) <= {"Stiefel"}), iterm(Qd.shape[1]) <= kf.term)))
+            goals.append(("reported labels on Q: at most Stiefel", z3.BoolVal(set(labels) <= {"Stiefel"})))
+            goals.append(("reported labels on Q: every returned column is one of the columns 0..k-1 of the final state, which the loop invariant (orthonormality obligations) "
+                          "makes orthonormal -- column k is a unit vector only if the last normalisation was not clipped (no breakdown, k < n)", iterm(Qd.shape[1]) <= kf.term))
         return goals
     return K.run_paths(f"{prop}/arnoldi[{dt};{capcase}]", FN + "arnoldi", thunk, dict(engine="ARNOLDI", part="wrapper", dtype=dt, cap=capcase))
 
